@@ -90,6 +90,16 @@ struct Boundaries {
     fail_at: Option<(usize, i32)>,
     failed: Option<(usize, String, String)>,
     count_only: bool,
+    /// Some((total, few)): only a sparse selection of the `total` boundaries is imaged (the 65 536 mkdirs of a pre-created tree)
+    sparse: Option<(usize, bool)>,
+}
+
+fn sparse_pick(k: usize, total: usize, few: bool) -> bool {
+    if few {
+        k == total / 2 || k + 4 == total || k + 1 == total
+    } else {
+        k <= 3 || k + 12 > total || k == total / 3 || k == 2 * (total / 3)
+    }
 }
 
 fn unsynced_files(root: &Path, synced: &HashMap<String, u64>) -> Vec<(String, u64)> {
@@ -139,7 +149,8 @@ fn install_boundary_handler(root: &Path, scratch: &Path, st: Arc<Mutex<Boundarie
             if b.count_only {
                 return 0;
             }
-            if b.fail_at.is_none() {
+            let skip = b.sparse.is_some_and(|(total, few)| !sparse_pick(k, total, few));
+            if b.fail_at.is_none() && !skip {
                 let img = scratch.join(format!("img{k}"));
                 copy_dir(&root_b, &img);
                 b.imgs.push((k, shim::kind_name(c.kind).to_string(), path_class(&root_b, &c.p1), img.clone()));
@@ -298,7 +309,30 @@ fn run_crash<K: HKey>(
     fs::create_dir_all(&imgdir).unwrap();
     let nested = env["nested"].as_bool().unwrap_or(false);
     let do_cont = env["cont"].as_bool().unwrap_or(false);
-    let cont = if do_cont { default_cont() } else { vec![] };
+    let cont = match env["cont_ops"].as_array() {
+        Some(c) => c.clone(),
+        None if do_cont => default_cont(),
+        None => vec![],
+    };
+    // env.sparse_open: the first open has very many boundaries (pre-created tree): count them on a scratch directory,
+    // then image a sparse selection
+    let sparse_few = env["sparse_open"].as_str() == Some("few");
+    let sparse_total = if env["sparse_open"].as_bool().unwrap_or(false) || env["sparse_open"].is_string() {
+        let probe = scratch.join("probe");
+        let _ = fs::remove_dir_all(&probe);
+        fs::create_dir_all(&probe).unwrap();
+        let bdc = Arc::new(Mutex::new(Boundaries { count_only: true, ..Default::default() }));
+        install_boundary_handler(&probe, &probe, bdc.clone());
+        let mut stp = Store::<K>::new(&probe, cfg);
+        let _ = stp.open();
+        stp.close();
+        shim::uninstall();
+        let _ = fs::remove_dir_all(&probe);
+        let k = bdc.lock().unwrap().k;
+        Some((k, sparse_few))
+    } else {
+        None
+    };
     out.emit(&json!({"ev": "reset", "sid": sid, "cfg": cfg.to_json(), "mode": mode}));
     let bd = Arc::new(Mutex::new(Boundaries { power: mode == "power", ..Default::default() }));
     let mut st = Store::<K>::new(&root, cfg);
@@ -308,6 +342,7 @@ fn run_crash<K: HKey>(
     let from = env["from"].as_u64().unwrap_or(0) as usize;
     for (i, op) in all_ops.iter().enumerate() {
         if i >= from {
+            bd.lock().unwrap().sparse = if i == 0 { sparse_total } else { None };
             install_boundary_handler(&root, &imgdir, bd.clone());
         } else {
             // no boundaries yet, but the descriptors opened now are followed (the log segment stays open across operations)
@@ -422,7 +457,9 @@ pub fn run_bulk(sid: &Value, cfg: &Cfg, scratch: &Path, out: &mut Out, env: &Val
     let _ = fs::remove_dir_all(&imgdir);
     fs::create_dir_all(&imgdir).unwrap();
     out.emit(&json!({"ev": "reset", "sid": sid, "cfg": cfg.to_json(), "mode": "bulk"}));
-    let key = |i: usize| format!("a{i:05}");
+    // keylen > 0: long keys, so that the single log record of the removal is bigger than any plausible internal limit
+    let pad = "k".repeat(env["keylen"].as_u64().unwrap_or(0) as usize);
+    let key = |i: usize| format!("a{i:05}{pad}");
     let count = |cas: &Cas<String>| -> (usize, bool, usize) {
         let g = cas.read_index_state();
         let left = (0..n).filter(|i| g.contains_key(&key(*i))).count();
@@ -471,6 +508,18 @@ pub fn run_bulk(sid: &Value, cfg: &Cfg, scratch: &Path, out: &mut Out, env: &Val
     out.emit(&json!({"ev": "bulk", "phase": "done", "n": n, "k": 0, "call": "", "path": "", "res": res,
                      "rec": {"ok": true, "val": "ok", "left": left, "outside": outside, "len": len}}));
     drop(cas);
+    // a clean restart (the removal is still in the un-checkpointed tail of the log, or was checkpointed by a rollover)
+    // must show exactly what the handle showed before it was dropped
+    let rec = match catch_unwind(AssertUnwindSafe(|| Cas::<String>::open(&root, cfg.config()))) {
+        Ok(Ok(c2)) => {
+            let (l2, o2, n2) = count(&c2);
+            json!({"ok": true, "val": "ok", "left": l2, "outside": o2, "len": n2})
+        }
+        Ok(Err(_)) => json!({"ok": false, "val": "err", "left": -1, "outside": false, "len": -1}),
+        Err(_) => json!({"ok": false, "val": "panic", "left": -1, "outside": false, "len": -1}),
+    };
+    out.emit(&json!({"ev": "bulk", "phase": "reopen", "n": n, "k": 0, "call": "", "path": "", "res": res,
+                     "before": {"left": left, "outside": outside, "len": len}, "rec": rec}));
     let _ = fs::remove_dir_all(&root);
     let _ = fs::remove_dir_all(&imgdir);
 }
